@@ -381,10 +381,12 @@ def build(tier):
         targets.append(T(fns[0].cname, fns, solver=None))
     targets += clone_targets()
     import enums
-    targets += enums.targets()
+    targets += enums.targets(tier)
     # parameter_t::operator=(tenum) / value<tenum>() for EVERY enumeration with a table (instantiated by the generated driver)
-    for q in sorted(enums.tables()):
-        targets += enum_param_targets(q, enums)
+    for k, q in enumerate(enums.quick_enums(tier)):
+        # operator=(tenum) drags the whole string assignment along (2000 obligations): the quick tier checks the first instantiation
+        # (one template body, the instantiations differ in T only), the thorough tier every instantiation; value<tenum>() always all
+        targets += [t for t in enum_param_targets(q, enums) if tier == 'thorough' or k == 0 or not t.name.endswith('_assign')]
     import clones
     targets += clones.targets()
     import factory
